@@ -209,29 +209,30 @@ def confirm_split(ctx, mode, prop, case):
     return viols, rp
 
 
-def scale_lift(ctx, n):
+def scale_lift(ctx, n, prop="C06"):
     """amounts beyond TLC's integers: exact small splits validated by TLC, then scaled by 2^31 .. 10^30 on the real code"""
+    vcfg = "ValueTrace_%s.cfg" % prop
     sp = os.path.join(ctx.work, "scale_small.ndjson")
     op = os.path.join(ctx.work, "scale.ndjson")
     summ = ctx.vh_json(["allot-scale", ctx.seed, n, sp, op])
     r1 = ctx.tlc_trace("MachineTrace", "MachineTrace_C06.cfg", sp, label="small exact splits of the scaling lift")
-    r2 = ctx.tlc_trace("ValueTrace", "ValueTrace_C06.cfg", op, label="scaled runs: U x small shares (U up to 10^30)")
+    r2 = ctx.tlc_trace("ValueTrace", vcfg, op, label="scaled runs: U x small shares (U up to 10^30)")
     ctx.cov["evaluations"] += 2 * summ["cases"]
     ctx.cov["big_amount_cases"] = summ["cases"]
     ctx.cov["traces_validated_against_impl"] += summ["cases"]
     ctx.cov["samples"] += (summ["samples"] or [])[:1]
-    viols = [v for v in r1["viols"] + r2["viols"] if v["prop"] == "C06"]
+    viols = [v for v in r1["viols"] + r2["viols"] if v["prop"] == prop]
     if viols:
         lines = {x["n"]: x for x in read_ndjson(op)}
         v = viols[0]
         x = lines.get(v["id"], {})
         # confirm by regenerating the same corpus in a fresh process
         summ2 = ctx.vh_json(["allot-scale", ctx.seed, n, sp + "2", op + "2"])
-        r3 = ctx.tlc_trace("ValueTrace", "ValueTrace_C06.cfg", op + "2", label="confirmation")
+        r3 = ctx.tlc_trace("ValueTrace", vcfg, op + "2", label="confirmation")
         r4 = ctx.tlc_trace("MachineTrace", "MachineTrace_C06.cfg", sp + "2", label="confirmation")
-        if r3["viols"] or r4["viols"]:
-            ctx.add_violation("C06: %s | factor %s | script: %s | vars %s | small %s | big %s" % (v["what"], x.get("factor"), str(x.get("text", "")).replace("\n", " ")[:300], x.get("rawvars"), x.get("small"), x.get("big")),
-                              dict(kind="scale", property="C06", seed=ctx.seed, n=n, case=x))
+        if [w for w in r3["viols"] + r4["viols"] if w["prop"] == prop]:
+            ctx.add_violation(prop + ": %s | factor %s | script: %s | vars %s | small %s | big %s" % (v["what"], x.get("factor"), str(x.get("text", "")).replace("\n", " ")[:300], x.get("rawvars"), x.get("small"), x.get("big")),
+                              dict(kind="scale", property=prop, seed=ctx.seed, n=n, case=x))
         else:
             raise Infra("candidate did not reproduce: %s" % v)
 
